@@ -1,4 +1,5 @@
 import DarkluaModel.C07.Inst.Wf
+import DarkluaModel.C07.Inst.FloorDivFull
 import DarkluaModel.C07.ContinueProof
 /-!
 # C07 — each Luau-lowering rule removes every occurrence of its construct: property theorems
@@ -99,13 +100,13 @@ theorem interp_acc (strategy : RemoveInterpolatedString.Strategy) (hl : A.localK
     simp only [countS, (hc _).1, (hc _).2, hz]
     omega
 
-theorem floordiv_acc (hdiv : A.bin .div = 0) (hno : A.cassign .idiv ≠ 0) (hl : A.localKind .loc = 0) (b : Block)
+theorem floordiv_acc (hop : ∀ op, A.bin op = 0) (hl : A.localKind .loc = 0) (b : Block)
     (hw : wfB b = true) (hA : countB A b = 0) :
     countB (floorDivisionCensus.add A) (RemoveFloorDivision.apply b) = 0 ∧
       wfB (RemoveFloorDivision.apply b) = true := by
-  have h1 := cover_block RemoveFloorDivision.processor true _ A Wfloor _
-    (cover_remove_floor_division A hdiv hno) _ b {} hw hA
-    (small Wfloor (fun op => by simp only [Wfloor]; split <;> omega) (Nat.zero_le _) (Nat.zero_le _) (Nat.zero_le _)
+  have h1 := cover_block RemoveFloorDivision.processor true _ A WfloorC _
+    (cover_remove_floor_division_full A hop hl) _ b {} hw hA
+    (small WfloorC (fun op => by simp only [WfloorC]; split <;> omega) (Nat.zero_le _) (Nat.zero_le _) (by decide)
       (Nat.zero_le _) b)
   have h2 := wf_block RemoveFloorDivision.processor true wfHooks_remove_floor_division (Visitor.fuelFor b) true b {} hw
   unfold RemoveFloorDivision.apply Visitor.runScoped
@@ -198,13 +199,15 @@ theorem census_zero_remove_interpolated_string (strategy : RemoveInterpolatedStr
     (hw : wfB b = true) : census_interpolated_string (RemoveInterpolatedString.applyWith strategy b) = 0 :=
   count_left (interp_acc Z strategy rfl b hw (zB b)).1
 
-/-- `remove_floor_division`: no `//` and no `//=` is left — proved for inputs without `//=`
-statements (`census_idiv_assign b = 0`, what `remove_compound_assignment` establishes): the rule
-hands a `//=` statement to a NESTED compound-assignment visitor (fresh tracker, own fuel) whose
-output is not analysed here; with `//=` present the claim rests on the correspondence + oracle. -/
-theorem census_zero_remove_floor_division (b : Block) (hw : wfB b = true) (hno : census_idiv_assign b = 0) :
+/-- `remove_floor_division`: no `//` and no `//=` is left, for EVERY well-formed block — `//=` statements included:
+the rule hands such a statement to a NESTED compound-assignment visitor run (the caller's tracker, own fuel
+`8 * size + 64`); its output is well-formed (`wlevel_all`), free of compound assignments (`level_all` with the
+compound-assignment instance, the nested fuel is enough by `fS`) and needs no more fuel than the statement it replaces
+(`k_visitStmt`, C07/KProof.lean), so the outer visitor reaches and rewrites the `t // v` inside it
+(C07/Inst/FloorDivFull.lean). -/
+theorem census_zero_remove_floor_division (b : Block) (hw : wfB b = true) :
     census_floor_division (RemoveFloorDivision.apply b) = 0 :=
-  count_left (floordiv_acc idivAssignCensus rfl (by decide) rfl b hw hno).1
+  count_left (floordiv_acc Z (fun _ => rfl) rfl b hw (zB b)).1
 
 /-- `convert_luau_number`: the shared AST has no Luau-only number spelling to count (literals
 carry their value only); the real claim (no `0b…` / `_` left) is judged by the oracle on text. -/
@@ -233,7 +236,7 @@ theorem all_lowered_is_51 (truthy : Expr → Bool) (b : Block) (hw : wfB b = tru
   obtain ⟨c3, w3⟩ := compound_acc _ (fun _ => rfl) rfl _ w2 c2
   obtain ⟨c4, w4⟩ := ifexpr_acc _ truthy rfl rfl _ w3 c3
   obtain ⟨c5, w5⟩ := interp_acc _ .string rfl _ w4 c4
-  obtain ⟨c6, w6⟩ := floordiv_acc _ rfl (by decide) rfl _ w5 c5
+  obtain ⟨c6, w6⟩ := floordiv_acc _ (fun _ => rfl) rfl _ w5 c5
   obtain ⟨c7, w7⟩ := number_acc _ _ w6 c6
   obtain ⟨c8, w8⟩ := const_acc _ rfl _ w7 c7
   exact (attribute_acc _ _ w8 c8).1
@@ -263,5 +266,9 @@ def sample : Block :=
 example : wfB sample = true ∧ continueInLoops sample = true := by decide
 example : census_luau sample = 13 := by decide
 example : wfB (.mk [] (some .cont)) = true ∧ continueInLoops (.mk [] (some .cont)) = false := by decide
+-- `census_zero_remove_floor_division` has no "no `//=`" hypothesis any more: the sample HAS a `//=` statement (whose
+-- target needs a temporary), one `//` besides, and the rule leaves neither
+example : census_idiv_assign sample = 1 ∧ census_floor_division sample = 2 := by decide
+example : census_floor_division (RemoveFloorDivision.apply sample) = 0 := by decide
 
 end DarkluaModel.C07
